@@ -76,3 +76,14 @@ func TestZZReplay(t *testing.T) {
 		idx++
 	}
 }
+
+// TestZZFreshOutcome prints the outcome of one Parse call made first in this
+// (fresh) process; used by zzFreshOutcome.
+func TestZZFreshOutcome(t *testing.T) {
+	p, ok := os.LookupEnv("ZZ_FRESH_PATH")
+	if !ok {
+		t.Skip("not a fresh-outcome run")
+	}
+	zzReset(&zzFixture{})
+	fmt.Printf("ZZOUT:%q\n", zzParseOutcome(p, os.Getenv("ZZ_FRESH_CFG")))
+}
